@@ -1567,6 +1567,7 @@ class Library(object):
         import stat as _stat
         for nm in ('S_ISVTX', 'S_IXUSR', 'S_IRWXU'):
             r['stat.' + nm] = getattr(_stat, nm)
+        r['stat.S_IMODE'] = B('stat.S_IMODE', self.lib_s_imode)
         r['shutil.Error'] = self.exc_classes['shutil.Error']
         # urllib
         pure('urllib.parse.quote', self.lib_quote)
@@ -1590,6 +1591,9 @@ class Library(object):
         r['six.text_type'] = self.str_cls
         r['six.moves.range'] = self.builtins['range']
         r['six.moves.input'] = B('input', self.bi_input)
+        r['posixpath.commonprefix'] = B('commonprefix', self.lib_commonprefix)
+        r['posixpath.split'] = B('posixpath.split', lambda I, a, k: (
+            mk(spec.dirname(I.ctx, z3str(a[0]))), mk(spec.basename(I.ctx, z3str(a[0])))))
         r['re.escape'] = B('re.escape', self.lib_re_escape)
         r['re.sub'] = B('re.sub', self.lib_re_sub)
         r['re.error'] = self.exc_classes['re.error']
@@ -1603,6 +1607,9 @@ class Library(object):
         dt.attrs['strptime'] = StaticM(B('datetime.strptime',
                                          self.lib_strptime))
         dt.attrs['now'] = StaticM(B('datetime.now', self.lib_now))
+        # UTC "now": some other instant on the (naive, local) time axis the
+        # DeletionDate values live on - never interchangeable with now()
+        dt.attrs['utcnow'] = StaticM(B('datetime.utcnow', self.lib_now))
         dt.attrs['min'] = DateV(z3.IntVal(0))
         dt.attrs['max'] = DateV(z3.IntVal(DATE_MAX_US))
         self.datetime_cls = dt
@@ -1712,6 +1719,32 @@ class Library(object):
         us = spec.strptime_val_f(f, t)
         ctx.assume(z3.And(us >= 0, us <= DATE_MAX_US))
         return DateV(us, aware='%z' in fmt or '%Z' in fmt)
+
+    def lib_s_imode(self, I, a, k):
+        """stat.S_IMODE(st_mode): the permission bits as an integer in
+        0..0o7777 (uninterpreted per state/path)"""
+        from .fsmodel import ModeV, perm_f
+        m = a[0]
+        if not isinstance(m, ModeV) or m.mask is not None:
+            raise OutsideSubset('stat.S_IMODE of %r' % (m,))
+        t = perm_f(m.st.sigma, m.st.path, z3.BoolVal(bool(m.st.follow)))
+        I.ctx.assume(z3.And(t >= 0, t <= 0o7777))
+        return mk(t)
+
+    def lib_commonprefix(self, I, a, k):
+        """os.path.commonprefix([a, b]): the longest common prefix, character
+        by character (NOT component-wise)"""
+        xs = list(I.iterate(a[0]))
+        if len(xs) != 2:
+            raise OutsideSubset('commonprefix of %d strings' % len(xs))
+        x, y = z3str(xs[0]), z3str(xs[1])
+        ctx = I.ctx
+        r = ctx.fresh_str('commonprefix')
+        n = z3.Length(r)
+        ctx.assume(z3.And(z3.PrefixOf(r, x), z3.PrefixOf(r, y)))
+        ctx.assume(z3.Or(n == z3.Length(x), n == z3.Length(y),
+                         z3.SubString(x, n, 1) != z3.SubString(y, n, 1)))
+        return mk(r)
 
     def lib_re_escape(self, I, a, k):
         return mk(spec.re_escape_f(z3str(a[0])))
